@@ -308,10 +308,11 @@ pub(crate) fn recv_batch_sync<T: Send>(
 
     let final_state = done_flag.load(Ordering::Acquire);
     if (final_state & 0x02) == 0 {
+      // The last sender is gone, but values it sent may still be buffered: unlink and loop,
+      // so phase 1 drains first and reports Disconnected only once the queue is empty.
       let mut guard = receiver.shared.internal.lock();
       guard.waiting_sync_receivers.retain(|w| w.state != done_ptr);
       drop(guard);
-      return Err(RecvError::Disconnected);
     }
   }
 }
@@ -360,10 +361,11 @@ pub(crate) fn recv_sync<T: Send>(receiver: &Receiver<T>) -> Result<T, RecvError>
 
     let final_state = done_flag.load(Ordering::Acquire);
     if (final_state & 0x02) == 0 {
+      // The last sender is gone, but values it sent may still be buffered: unlink and loop,
+      // so phase 1 drains first and reports Disconnected only once the queue is empty.
       let mut guard = receiver.shared.internal.lock();
       guard.waiting_sync_receivers.retain(|w| w.state != done_ptr);
       drop(guard);
-      return Err(RecvError::Disconnected);
     }
   }
 }
